@@ -88,6 +88,9 @@ def run(chk, tier):
     # guarded halts and assertions (kept at the levels C01 runs) in their bodies
     for i in range(ne // 2):
         g = progen.ProgGen(((chk.seed + 9) % 1000003) * 100003 + i, emph=("call", "halt") + (("deep",) if i % 4 == 3 else ()))
+        if i % 2:
+            g.feat |= {"try", "catchall"}
+            g.exns = g.exns or ["Ex0", "Ex1", "Ex2"]
         g.feat |= {"fun", "halt", "assert", "tup", "coll", "list", "filt", "for", "adt", "kwd", "strop", "str", "where", "pfor", "bits"}
         eprogs.append(g.program("k%d" % i))
     fame = progcheck.Family(chk, eprogs, "exceptions", workers=vlib.NCPU, timeout=1500)
